@@ -33,6 +33,9 @@ func TestC20Recording(t *testing.T) {
 		h.Exec(0, p, nil, after)
 		return
 	}
+	if run.Shard == 0 {
+		goexitHandlers(run)
+	}
 	n := run.Scale(2500, 120000)
 	pf := profiles()
 	for i := 0; i < n; i++ {
